@@ -520,6 +520,20 @@ Theorem C09_block_head : forall (mc : mcard) (pw : list (string * list (string *
 Proof. exact block_text_head. Qed.
 Print Assumptions C09_block_head.
 
+(* a composition that a live cell asks for IS in the written text: the block of
+   every (material card, stored density) pair occurs in what writeT4Composition
+   writes (with C09_block_head: under the name GEOMCOMP uses, and with
+   C09_point_gets_leaf_material_linked: the composition of the innermost filler
+   of a located point) *)
+Theorem C09_block_written :
+  forall (mcs : list mcard) (cells : dict cell) (pw : list (string * list (string * string)))
+         (text : string) (mc : mcard) (d : string),
+  write_compositions mcs cells pw = Ok text -> dens_normal cells ->
+  In mc mcs -> asks (k_key mc) cells d ->
+  exists pre post, text = pre ++ block_text mc pw d ++ post.
+Proof. exact block_written. Qed.
+Print Assumptions C09_block_written.
+
 (* the type of a block: [neg_density] (the model of `float(density) < 0.0`,
    tied byte for byte through block_text) holds of the stored density exactly
    when the VALUE of the number spelled on the cell card is negative: a mass
